@@ -78,33 +78,46 @@ Proof.
   cbn [wf] in Hwf. apply andb_prop in Hwf as [Hwx Htx].
   cbn [rspine] in Hr. apply andb_prop in Hr as [Hst Hrx].
   unfold need in Hf. rewrite pp_detached in *. cbn [length app] in *.
-  fuel f. rewrite expr_S. fuel f. rewrite op_detached.
-  rewrite (sub_ctx x M Hwx) by (assumption || (unfold need; lia)). apply Hloop. lia.
+  destruct (det_paren x); cbn [twrap orb] in *.
+  - cbn [length app] in Hf. rewrite app_length in Hf. cbn [length] in Hf. cbn [app]. rewrite <- app_assoc. cbn [app].
+    fuel f. rewrite expr_S. fuel f. rewrite op_detached. fuel f. rewrite expr_S.
+    rewrite (paren_operand x M Hwx) by (unfold need; lia).
+    rewrite loop_stops by (assumption || lia). apply Hloop. lia.
+  - fuel f. rewrite expr_S. fuel f. rewrite op_detached.
+    rewrite (sub_ctx x M Hwx) by (assumption || (unfold need; lia)). apply Hloop. lia.
 Qed.
 
-Lemma ttype_first : forall p t k, starts S_OPTIONAL (ttype p t ++ k) = false /\ starts S_NOT (ttype p t ++ k) = false.
+Lemma ttype_first : forall p t k,
+  starts S_OPTIONAL (ttype p t ++ k) = false /\ starts S_NOT (ttype p t ++ k) = false /\
+  starts S_REQUIRED (ttype p t ++ k) = false.
 Proof.
   intros p [m n|m n subs] k.
-  - rewrite ttype_name. destruct m; split; reflexivity.
-  - rewrite ttype_coll. destruct p, m; split; reflexivity.
+  - rewrite ttype_name. destruct m; repeat split; reflexivity.
+  - rewrite ttype_coll. destruct p, m; repeat split; reflexivity.
 Qed.
 
-Lemma main_cast : forall opt t x, Main x -> Main (ECast opt t x).
+Lemma main_cast : forall cm t x, Main x -> Main (ECast cm t x).
 Proof.
-  intros opt t x M Hwf c k r f1 Ht Hr Hk Hloop f Hf.
+  intros cm t x M Hwf c k r f1 Ht Hr Hk Hloop f Hf.
   cbn [wf] in Hwf. apply andb3 in Hwf as (Hwt & Hwx & Htx).
   cbn [rspine] in Hr. apply andb_prop in Hr as [Hst Hrx].
   unfold need in Hf. rewrite pp_cast in *.
   cbn [app length] in *. rewrite !app_length in Hf. cbn [length] in Hf.
   fuel f. rewrite expr_S. fuel f. rewrite op_cast. cbv zeta.
-  destruct opt; cbn [app length] in *.
+  destruct cm; cbn [tcmod app length] in *.
+  - rewrite <- app_assoc. cbn [app]. destruct (ttype_first false t (TSym S_RANGBRACKET :: pp x ++ k)) as (E1 & _ & E3).
+    rewrite E1, E3.
+    rewrite type_ok by (assumption || reflexivity || (unfold tneed; lia)).
+    cbn [expect sym_eqb]. rewrite N.eqb_refl.
+    rewrite (sub_ctx x M Hwx) by (assumption || (unfold need; lia)). apply Hloop. lia.
   - change (starts S_OPTIONAL (TSym S_OPTIONAL :: (ttype false t ++ TSym S_RANGBRACKET :: pp x) ++ k)) with true.
     cbn [tl]. rewrite <- app_assoc. cbn [app].
     rewrite type_ok by (assumption || reflexivity || (unfold tneed; lia)).
     cbn [expect sym_eqb]. rewrite N.eqb_refl.
     rewrite (sub_ctx x M Hwx) by (assumption || (unfold need; lia)). apply Hloop. lia.
-  - rewrite <- app_assoc. cbn [app]. destruct (ttype_first false t (TSym S_RANGBRACKET :: pp x ++ k)) as [E _].
-    rewrite E.
+  - change (starts S_OPTIONAL (TSym S_REQUIRED :: (ttype false t ++ TSym S_RANGBRACKET :: pp x) ++ k)) with false.
+    change (starts S_REQUIRED (TSym S_REQUIRED :: (ttype false t ++ TSym S_RANGBRACKET :: pp x) ++ k)) with true.
+    cbn [tl]. rewrite <- app_assoc. cbn [app].
     rewrite type_ok by (assumption || reflexivity || (unfold tneed; lia)).
     cbn [expect sym_eqb]. rewrite N.eqb_refl.
     rewrite (sub_ctx x M Hwx) by (assumption || (unfold need; lia)). apply Hloop. lia.
@@ -121,6 +134,21 @@ Lemma rparen_close : forall e k,
   end = Some (e, k).
 Proof. reflexivity. Qed.
 
+Lemma twrap_length : forall b l, length l <= length (twrap b l).
+Proof. intros [] l; cbn [twrap length]; [rewrite app_length; cbn; lia|lia]. Qed.
+
+(* a left operand, printed bare or in parentheses, followed by [rest] under no enclosing production *)
+Lemma left_operand : forall l, Main l -> wf l = true -> forall b rest res g,
+  (b = false -> rspine l rest = true) -> okfollow rest = true ->
+  (forall f, g <= f -> parse_loop f None l rest = Some res) ->
+  forall f, g + need l + 5 <= f -> parse_expr f None (twrap b (pp l) ++ rest) = Some res.
+Proof.
+  intros l Ml Hwl b rest res g Hr Hk HL f Hf. destruct b; cbn [twrap].
+  - cbn [app]. rewrite <- app_assoc. cbn [app]. fuel f. rewrite expr_S.
+    rewrite (paren_operand l Ml Hwl) by lia. apply HL. lia.
+  - apply (Ml Hwl None rest res g); auto; [apply tight_none|lia].
+Qed.
+
 Lemma main_bin : forall o l r, Main l -> Main r -> Main (EBin o l r).
 Proof.
   intros o l r Ml Mr Hwf c k res f1 Ht Hr Hk Hloop f Hf.
@@ -132,17 +160,22 @@ Proof.
   destruct (row_cons _ _ _ Hin) as (s0 & ss' & Ess).
   unfold need in Hf. rewrite pp_bin in *. unfold op_syms in *. rewrite Hsy in *.
   cbn [app length] in *. rewrite !app_length in Hf. cbn [length] in Hf.
+  pose proof (twrap_length (swallows (LBin o) l) (pp l)) as Hwl'.
   assert (Hlen : 1 <= length (sym_toks ss)) by (subst ss; cbn; lia).
   rewrite <- ?app_assoc. cbn [app].
   set (rest := sym_toks ss ++ pp r ++ TSym S_RPAREN :: k).
-  pose proof (first_ok l Hwl rest) as Hfb. apply firstbad_starts in Hfb as (F1 & _).
   assert (Hokf : okfollow rest = true) by (apply (row_okfollow _ _ _ Hin)).
-  pose proof (named_ok l Hwl rest (proj2 (proj2 (okfollow_parts _ Hokf)))) as Hn.
+  assert (F1 : starts S_RPAREN (twrap (swallows (LBin o) l) (pp l) ++ rest) = false /\
+               named_prefix (twrap (swallows (LBin o) l) (pp l) ++ rest) = false).
+  { destruct (swallows (LBin o) l); cbn [twrap]; [split; reflexivity|].
+    pose proof (first_ok l Hwl rest) as Hfb. apply firstbad_starts in Hfb as (F1 & _).
+    split; [assumption|]. apply (named_ok l Hwl rest). apply (okfollow_parts _ Hokf). }
+  destruct F1 as [F1 F2].
   fuel f. rewrite expr_S. fuel f. rewrite op_lparen by assumption. fuel f. rewrite paren_S.
-  rewrite (Ml Hwl None rest (EBin o l r, TSym S_RPAREN :: k) (need r + 3)).
+  rewrite (left_operand l Ml Hwl (swallows (LBin o) l) rest (EBin o l r, TSym S_RPAREN :: k) (need r + 3)).
   - cbn [N.eqb]. rewrite N.eqb_refl. apply Hloop. lia.
-  - apply tight_none.
-  - unfold rest. subst ss. cbn [sym_toks map app]. rewrite (rspine_hd l _ _ (sym_toks ss')). exact Hrl.
+  - intro E. rewrite E in Hrl. cbn [orb] in Hrl.
+    unfold rest. subst ss. cbn [sym_toks map app]. rewrite (rspine_hd l _ _ (sym_toks ss')). exact Hrl.
   - assumption.
   - intros f' Hf'. unfold rest. fuel f'. rewrite (loop_binop _ _ _ Hin). rewrite decide_none.
     rewrite (sub_ctx r Mr Hwr (Some p) (TSym S_RPAREN :: k)); try reflexivity; try assumption.
@@ -158,24 +191,28 @@ Proof.
   cbn [wf] in Hwf. apply andb3 in Hwf as (Hwl & Hwt & Hrl).
   unfold need in Hf. rewrite pp_is in *.
   cbn [app length] in *. rewrite !app_length in Hf. cbn [length] in Hf. rewrite !app_length in Hf. cbn [length] in Hf.
+  pose proof (twrap_length (swallows LIs l) (pp l)) as Hwl'.
   rewrite <- ?app_assoc. cbn [app]. rewrite <- ?app_assoc. cbn [app]. rewrite <- ?app_assoc. cbn [app].
   set (rest := TSym S_IS :: (if neg then [TSym S_NOT] else []) ++ ttype true t ++ TSym S_RPAREN :: k).
-  pose proof (first_ok l Hwl rest) as Hfb. apply firstbad_starts in Hfb as (F1 & _).
-  pose proof (named_ok l Hwl rest eq_refl) as Hn.
+  assert (F1 : starts S_RPAREN (twrap (swallows LIs l) (pp l) ++ rest) = false /\
+               named_prefix (twrap (swallows LIs l) (pp l) ++ rest) = false).
+  { destruct (swallows LIs l); cbn [twrap]; [split; reflexivity|].
+    pose proof (first_ok l Hwl rest) as Hfb. apply firstbad_starts in Hfb as (F1 & _).
+    split; [assumption|]. apply (named_ok l Hwl rest eq_refl). }
+  destruct F1 as [F1 F2].
   assert (Hlt : length (ttype false t) <= length (ttype true t)).
   { destruct t; [rewrite !ttype_name; lia|]. rewrite !ttype_coll. simpl. rewrite !app_length. simpl. rewrite !app_length. simpl. lia. }
   fuel f. rewrite expr_S. fuel f. rewrite op_lparen by assumption. fuel f. rewrite paren_S.
-  rewrite (Ml Hwl None rest (EIs neg l t, TSym S_RPAREN :: k) (tneed t + 4)).
+  rewrite (left_operand l Ml Hwl (swallows LIs l) rest (EIs neg l t, TSym S_RPAREN :: k) (tneed t + 4)).
   - cbn [N.eqb]. rewrite N.eqb_refl. apply Hloop. lia.
-  - apply tight_none.
-  - unfold rest. rewrite (rspine_hd l _ _ []). exact Hrl.
+  - intro E. rewrite E in Hrl. cbn [orb] in Hrl. unfold rest. rewrite (rspine_hd l _ _ []). exact Hrl.
   - reflexivity.
   - intros f' Hf'. unfold rest. fuel f'. rewrite loop_is, decide_none. cbv zeta.
     destruct neg; cbn [app].
     + change (starts S_NOT (TSym S_NOT :: ttype true t ++ TSym S_RPAREN :: k)) with true. cbn [tl].
       rewrite type_paren_ok by (assumption || reflexivity || lia).
       apply loop_stops; [reflexivity|lia].
-    + destruct (ttype_first true t (TSym S_RPAREN :: k)) as [_ E]. rewrite E.
+    + destruct (ttype_first true t (TSym S_RPAREN :: k)) as (_ & E & _). rewrite E.
       rewrite type_paren_ok by (assumption || reflexivity || lia).
       apply loop_stops; [reflexivity|lia].
   - unfold need, tneed. destruct neg; cbn [length] in Hf; lia.
@@ -673,14 +710,20 @@ Proof.
   intros x els Mx HM Hwf c k r f1 Ht Hr Hk Hloop f Hf.
   cbn [wf] in Hwf. apply andb_prop in Hwf as [Hwf Hwels]. apply andb3 in Hwf as (Hwx & Hrx & Hne).
   rewrite wf_els in Hwels. cbn [tight] in Ht. apply andb_prop in Ht as [Htx Hsh].
+  destruct els as [|el els]; [discriminate|].
   unfold need in Hf. rewrite pp_shape in *. rewrite !app_length in Hf. cbn [length] in Hf. rewrite app_length in Hf. cbn [length] in Hf.
+  pose proof (twrap_length (swallows LBrace x) (pp x)) as Hwl'.
   rewrite <- ?app_assoc. cbn [app]. rewrite <- ?app_assoc. cbn [app].
-  apply (Mx Hwx c _ r (f1 + 6 * length (tcommas tel els) + 9)); auto.
-  - rewrite (rspine_hd x _ _ []). exact Hrx.
-  - intros f' Hf'. fuel f'. rewrite loop_lbrace. rewrite (shifts_decide _ _ Hsh).
-    rewrite shape_ok; [|assumption|assumption|destruct els; [discriminate|discriminate]|lia].
-    apply Hloop. lia.
-  - unfold need. lia.
+  set (rest := TSym S_LBRACE :: tcommas tel (el :: els) ++ TSym S_RBRACE :: k).
+  assert (HL : forall f', f1 + 6 * length (tcommas tel (el :: els)) + 9 <= f' -> parse_loop f' c x rest = Some r).
+  { intros f' Hf'. unfold rest. fuel f'. rewrite loop_lbrace. rewrite (shifts_decide _ _ Hsh).
+    rewrite shape_ok; [|assumption|assumption|discriminate|lia]. apply Hloop. lia. }
+  destruct (swallows LBrace x); cbn [twrap orb] in *.
+  - cbn [app]. rewrite <- app_assoc. cbn [app]. cbn [length] in Hf. rewrite app_length in Hf. cbn [length] in Hf.
+    fuel f. rewrite expr_S. rewrite (paren_operand x Mx Hwx) by (unfold need; lia). apply HL. lia.
+  - apply (Mx Hwx c rest r (f1 + 6 * length (tcommas tel (el :: els)) + 9)); auto.
+    + unfold rest. rewrite (rspine_hd x _ _ []). exact Hrx.
+    + unfold need. lia.
 Qed.
 
 (* ------------------------------------------------------------------ the theorem *)
